@@ -363,6 +363,8 @@ def pmap(fn: Callable[[Any], Any], items: list[Any], workers: int = 0,
     import multiprocessing as mp
     if workers <= 0:
         workers = min(16, os.cpu_count() or 4)
+    if os.environ.get('VERIF_WORKERS'):
+        workers = max(1, min(workers, int(os.environ['VERIF_WORKERS'])))
     if workers == 1 or len(items) <= 1:
         return [fn(x) for x in items]
     ctx = mp.get_context('fork')
